@@ -15,7 +15,7 @@ ASSUMPTIONS = [
     "equality of U_full, heralds and input_modes implies equality of every heralded transition amplitude (they are functions of these only)",
 ]
 BOUNDS = {
-    "quick": "Circuit(4) programs of 3 components (first component and a swap-heavy prefix fixed per case, the others chosen by forks from a 12-entry menu incl. non-adjacent bs in both orders/conventions, loss, barriers, unitary blocks, plain and heralded groups, nested group), all parameters symbolic; the 5 rewrites singly and all 20 ordered pairs of distinct rewrites",
+    "quick": "Circuit(4) programs of 3 components (first component and a swap-heavy prefix fixed per case, the others chosen by forks from a 12-entry menu incl. non-adjacent bs in both orders/conventions, loss, barriers, unitary blocks, plain and heralded groups, nested group), all parameters symbolic; the 5 rewrites singly and all 20 ordered pairs of distinct rewrites; each rewrite on a circuit whose loss Parameter (value 0 or symbolic, between two swaps) is changed after the rewrite",
     "thorough": "programs of 4 components",
 }
 OUTSIDE = "swap algebra: permutations of 4 modes, non-adjacent pairs within modes 0..6 (CrossHair conditions xh/c09_swaps.py); circuits with more modes/components than the bound; rewrites applied more than twice in sequence"
@@ -155,6 +155,40 @@ def h_rewrites(ctx, prefix, length):
     ctx.check(len(c._get_circuit_spec()) == base_spec_len and c.heralds == base_h, "source:spec-unchanged")
 
 
+def h_param_after_rewrite(ctx, rw, where, v0):
+    """a rewrite preserves the transformation of the circuit, not only its matrix at the moment of the rewrite:
+    the rewritten (non-frozen) circuit keeps following its Parameters, so after a Parameter is changed it still
+    equals the un-rewritten circuit at the new value.  v0 = 0 is the value at which a loss element is an identity."""
+    lw = ctx.lw
+    v1 = ctx.real("v1", 0, 1)
+    start = 0 if v0 == "zero" else ctx.real("v0", 0, 1)
+
+    def build(val):
+        c = lw.Circuit(3)
+        c.mode_swaps({0: 1, 1: 0})
+        if where == "loss":
+            c.loss(1, val)
+        elif where == "ps-loss":
+            c.ps(1, ctx.angle("phi"), loss=val)
+        else:
+            c.bs(0, 2, reflectivity=ctx.m.frac(1, 3), convention="H", loss=val)
+        c.mode_swaps({1: 2, 2: 1})
+        c.bs(0, 2, reflectivity=ctx.m.frac(1, 4))
+        return c
+    par = lw.Parameter(start)
+    c = build(par)
+    n0 = len(c._get_circuit_spec())
+    out = _rewrite(c, rw)
+    ctx.check_eq(out.U_full, build(start).U_full, f"param-after:{rw}:U_full-unchanged")
+    par.set(v1)
+    if rw == "copy_frozen":
+        ctx.check_eq(out.U_full, build(start).U_full, f"param-after:{rw}:frozen-copy-keeps-the-old-value")
+    else:
+        ctx.check_eq(out.U_full, build(v1).U_full, f"param-after:{rw}:U_full-follows-the-parameter-like-the-original")
+    if rw == "compress_mode_swaps":
+        ctx.check(len(out._get_circuit_spec()) <= n0, f"param-after:{rw}:components-not-grown")
+
+
 def cases(tier):
     out = []
     if tier == "quick":
@@ -178,4 +212,6 @@ def xh_conditions(tier):
 
 
 def harnesses(tier):
-    return [("rewrites", h_rewrites, cases(tier), dict(max_paths=20000, max_seconds=1800))]
+    pa = [dict(rw=r, where=w, v0=v) for r in REWRITES for w in ("loss", "ps-loss", "bs-loss") for v in ("zero", "symbolic")]
+    return [("rewrites", h_rewrites, cases(tier), dict(max_paths=20000, max_seconds=1800)),
+            ("param-after-rewrite", h_param_after_rewrite, pa)]
